@@ -1,4 +1,4 @@
-From LC Require Export Val Filters.
+From LC Require Export Val LatestHashes Filters.
 Open Scope N_scope.
 
 Definition run_filters (w : fworld) (m : bf_msg) : val :=
@@ -16,3 +16,6 @@ Definition run_filters (w : fworld) (m : bf_msg) : val :=
   | Err c => VL [VN 1; VN c]
   | Panic _ => VL [VN 3]
   end.
+
+Definition run_latest (required : N) (peers : list (N * list hash)) (chosen : list hash) : val :=
+  let '(written, ok) := latest_hashes (N.to_nat required) peers chosen in VL [vlist VN written; vbool ok].
